@@ -24,6 +24,10 @@ pub mod p20;
 pub fn pairs<'w>(world: &'w World, families: &[&str]) -> Vec<(&'w GInfo, usize)> {
     let mut v = vec![];
     for gi in &world.grammars {
+        // the non-default option variants are compared with their default build by C20 only
+        if gi.g.family() == "options" && !gi.g.options().is_empty() {
+            continue;
+        }
         if families.is_empty() || families.contains(&gi.g.family()) {
             for r in 0..gi.rules.len() {
                 v.push((gi, r));
